@@ -35,3 +35,7 @@ func (p *Peer) VerifCrash() error {
 	close(p.stopc)
 	return p.mlist.Shutdown()
 }
+
+// VerifCloseTransport releases the listening address of a peer that has left,
+// the way the exit of the process does (Leave alone keeps the transport open).
+func (p *Peer) VerifCloseTransport() error { return p.mlist.Shutdown() }
